@@ -73,7 +73,16 @@ def main():
         "checks": checks,
         "not_applicable": na,
         "notes": "All verdicts come from TLC rejecting a trace recorded from the real code (DESIGN.md section 3). "
-                 "Exit 2 = infrastructure trouble, never a violation.",
+                 "Exit 2 = infrastructure trouble, never a violation. All 20 properties are claimed; the following CLAUSES "
+                 "lie below the abstraction boundary of the technique and are covered only through the trusted "
+                 "concretisers named in each level_note: C07 byte-equality with the Rails implementation (reference "
+                 "HMAC written from blob.rb; Ruby cannot run here); C10 'no parser panics or hangs on ANY input string' "
+                 "(only single-token and numeric-extreme mutations of generated manifests); C12 the MD5 weight formula "
+                 "itself (reference computation in the driver) and uuids of other lengths than 27; C01/C03 'all block "
+                 "contents' (content classes under seeded concretisation); C15 liveness on real code only within a "
+                 "wall-clock bound (TLC liveness on the model); C17 large files / special files. Clauses of the specs that go "
+                 "beyond a property statement are reported as DRIFT only (DESIGN.md section 10.7). Known findings: "
+                 "KNOWN_FINDINGS.md; seeded breakages and who catches them: DESIGN.md section 10.5.",
     }
     with open(os.path.join(VERIF, "MANIFEST.json"), "w") as f:
         json.dump(man, f, indent=1)
